@@ -178,14 +178,14 @@ func checkProbeRecord(p *Prog, r *Report, scan *ssa.Function) {
 			v = mi.X
 		}
 		lf := litFields(s, v)
-		host := sxSeg(s, lf["Host"], 0)
-		if !strings.Contains(host, "fmt.Sprintf(") {
-			ok, why = false, "Host is "+host
-		} else if hc, isC := s.Resolve(lf["Host"]).(*ssa.Call); isC {
-			elems, okv := VariadicElems(hc.Call.Args[1])
-			if !okv || len(elems) != 2 || !strings.HasSuffix(sx(elems[0], 0), "String(r.DstIP)") && !strings.HasSuffix(sx(elems[0], 0), "r.DstIP") || !strings.HasSuffix(sx(elems[1], 0), "r.DstPort") {
-				ok, why = false, "Host is not built from (r.DstIP, r.DstPort)"
-			}
+		// Host is "[tcp://]<r.DstIP>:<r.DstPort>", however the string is assembled
+		pieces, okE := strEval(s, lf["Host"], 0)
+		if okE && len(pieces) == 4 && pieces[0] == "L:tcp://" {
+			pieces = pieces[1:]
+		}
+		if !okE || len(pieces) != 3 || !strings.HasPrefix(pieces[0], "S:") || !strings.HasSuffix(pieces[0], "r.DstIP") ||
+			pieces[1] != "L::" || !strings.HasPrefix(pieces[2], "D:") || !strings.HasSuffix(pieces[2], "r.DstPort") {
+			ok, why = false, "Host evaluates to "+strings.Join(pieces, " ")+" ("+sxSeg(s, lf["Host"], 0)+"), expected r.DstIP ':' r.DstPort"
 		}
 		if e := sxSeg(s, lf["Proto"], 0); e != "s.proto" {
 			ok, why = false, "Proto is "+e+", expected the scanner's scheme"
@@ -209,17 +209,33 @@ func checkProbeRecord(p *Prog, r *Report, scan *ssa.Function) {
 				if !isC {
 					continue
 				}
-				switch {
-				case calleeFull(&c.Call) == "fmt.Sprintf":
-					f, _ := constString(c.Call.Args[0])
-					if strings.HasPrefix(f, "%s://") && fn.Name() != "String" {
-						elems, okv := VariadicElems(c.Call.Args[1])
-						if okv && len(elems) >= 1 && strings.HasSuffix(sx(elems[0], 0), ".proto") {
+				// a URL handed to a call: "<scheme field>://..." however the string is assembled
+				if fn.Name() != "String" && calleeFull(&c.Call) != "fmt.Sprintf" {
+					for _, a := range c.Call.Args {
+						if bt, isB := a.Type().Underlying().(*types.Basic); !isB || bt.Info()&types.IsString == 0 {
+							continue
+						}
+						pieces, okE := strEval(nil, a, 0)
+						if !okE || len(pieces) < 2 {
+							continue
+						}
+						hasScheme := false
+						for _, pc := range pieces {
+							if strings.HasPrefix(pc, "L:") && strings.Contains(pc, "://") {
+								hasScheme = true
+							}
+						}
+						if !hasScheme || !strings.HasPrefix(pieces[0], "S:") {
+							continue // no scheme, or a fixed literal scheme such as the docker client's tcp:// host
+						}
+						if strings.HasPrefix(pieces[0], "S:") && strings.HasSuffix(pieces[0], ".proto") && strings.HasPrefix(pieces[1], "L:://") {
 							used = true
 						} else {
-							detail = "URL scheme is not the scheme field"
+							detail = "URL scheme is not the scheme field: " + strings.Join(pieces, " ")
 						}
 					}
+				}
+				switch {
 				case strings.HasSuffix(calleeFull(&c.Call), "client.WithScheme"):
 					if strings.HasSuffix(sx(c.Call.Args[0], 0), "s.proto") {
 						used = true
